@@ -461,6 +461,27 @@ def run_case(case, ctx):
                 w.update({"pts": pts, "ms": list(ms), "order": order, "moved_to": P2, "retimed_to": ms2})
                 return violated(w, sig, nontrivial, cls + ["recompute_after_edit"])
             cls.append("recompute_after_edit")
+    if n >= 2 and n <= 60 and (n + int(ms[0] // 1000)) % 2 == 0:
+        # two tracks used in turn: the point-wise algorithm speed(track, i) asked alternately for two independent tracks
+        # of the same number of fixes and other instants (A, B, A, B ...)
+        from tracklib.algo.analytics import speed as af_speed
+        ms_b = [ms[0] + 2 * (m - ms[0]) + 500 * i for i, m in enumerate(ms)]
+        ta = gen.make_track([tuple(p) for p in pts], ms)
+        tb = gen.make_track([(p[1] - 4.0, 2.0 * p[0] + 1.0, p[2]) for p in pts], ms_b)
+        Pb = [(p[1] - 4.0, 2.0 * p[0] + 1.0) for p in pts]
+        va, vb = [], []
+        for i in range(n):
+            va.append(M.call(af_speed, ta, i))
+            vb.append(M.call(af_speed, tb, i))
+        ctx.monitor("speed.two_tracks_in_turn")
+        bad_ = next((v for v in va + vb if M.is_raised(v)), None)
+        w = ({"what": "speed(track, i) raised", "raised": bad_} if bad_ is not None else None) \
+            or _check_speed(va, P, ms, ctx, "speed(A, i) asked in turn with speed(B, i)") \
+            or _check_speed(vb, Pb, ms_b, ctx, "speed(B, i) asked in turn with speed(A, i)")
+        if w:
+            w.update({"pts": pts, "ms": list(ms), "ms_of_the_other_track": ms_b})
+            return violated(w, sig, nontrivial, cls + ["two_tracks_in_turn"])
+        cls.append("two_tracks_in_turn")
     # alternative entry points to the same feature: the operator interface (per-leg feature 'ds' integrated in place
     # under the name abs_curv) and the expression shorthand I{ds}
     if (n + int(ms[0] // 1000)) % 3 == 0:
@@ -527,7 +548,7 @@ def classify(case, witness):
 # floors for the call-history workloads added in session 3 (a run in which they were silently skipped is inconclusive)
 _floors_base = floors
 _FLOORS_EXTRA = {'monitors': {'abs_curv_after_trimming': 1000},
-                 'classes': {'track_of_1000+_fixes': 20, 'timestamps_edited_in_place': 500, 'timestamp_fields_held_as_numpy_ints': 500}}
+                 'classes': {'track_of_1000+_fixes': 20, 'two_tracks_in_turn': 1000, 'timestamps_edited_in_place': 500, 'timestamp_fields_held_as_numpy_ints': 500}}
 
 
 def floors(tier):
